@@ -134,7 +134,7 @@ def judge(warm: dict[str, Any], cold: dict[str, Any]) -> dict[str, Any] | None:
         return {"kind": "next_run_abnormal", "status": warm["status"], "detail": (warm.get("traceback") or warm.get("stderr", ""))[-1500:]}
     if runner.same_observable(warm, cold):
         return None
-    if runner.differs_only_in_only_once(warm, cold) or runner.partial_output_before_blocker(warm, cold):
+    if runner.soft_difference(warm, cold) is not None:
         return None  # C02's known-finding classes (present without any fault), judged there
     return {"kind": "next_run_differs", "diff": runner.first_difference(warm, cold)}
 
